@@ -58,6 +58,9 @@ pub struct Chan {
     pub jitter_ms: u64,
     /// extra delay for the next write only (a reply that is held up)
     pub hold_next_ms: u64,
+    /// cut the connection right after the n-th write from now: what was written last is lost in flight (Reset) or is the
+    /// last thing the reader gets (Eof)
+    pub cut_after_writes: Option<(u32, CloseKind)>,
 }
 
 pub type ChanRef = Arc<Mutex<Chan>>;
@@ -364,6 +367,27 @@ impl SimPhys for SimSocket {
             core.count("phys_writes", 1);
         }
         chan_push(&self.outbox, now + lat, data.to_vec());
+        let cut = {
+            let mut o = self.outbox.lock().unwrap();
+            match o.cut_after_writes.take() {
+                Some((n, kind)) if n <= 1 => Some(kind),
+                Some((n, kind)) => {
+                    o.cut_after_writes = Some((n - 1, kind));
+                    None
+                }
+                None => None,
+            }
+        };
+        if let Some(kind) = cut {
+            if let Some(core) = &core {
+                core.count("fault.cut_after_write", 1);
+                if core.log_enabled() {
+                    core.log(format!("{}: connection cut right after this write ({:?})", self.name, kind));
+                }
+            }
+            chan_close(&self.outbox, kind);
+            chan_close(&self.inbox, kind);
+        }
         Poll::Ready(Ok(()))
     }
 }
